@@ -280,3 +280,8 @@ func ConnectSplit(p *Proxy, alpn []string, cut int) (*ClientConn, error) {
 	}
 	return cc, nil
 }
+
+// NextStreamID returns the stream id the next Do would use; SkipStreamIDs reserves n ids for frames the
+// caller writes itself.
+func (c *ClientConn) NextStreamID() uint32 { return c.nextID }
+func (c *ClientConn) SkipStreamIDs(n int)  { c.nextID += uint32(2 * n) }
